@@ -430,22 +430,34 @@ package fzf
 //@ property C06
 //@ track own uint8
 //@ requires r != nil
+// Byte accounting with two ghost counters: nread = bytes returned by Read so far, ncut = bytes that have been
+// cut off as records (with their delimiter) or handed over as the final unterminated record.  Every byte read
+// is in exactly one place - already cut, waiting in leftover, or still in buf - so nothing is lost or doubled.
+//@ ghost nread int
+//@ ghost ncut int
+//@ ghost @"buf := slab[:n]" nread = nread + n
+//@ ghost @"buf = buf[i+1:]" ncut = ncut + len(leftover) + len(slice)
+//@ ghost @"if len(leftover) > 0 && r.pusher(leftover)" ncut = ncut + len(leftover)
+//@ ensures nread == ncut
 // ... and a record handed over never contains the record delimiter (records are cut at every delimiter)
 //@ effect call r.pusher requires forall(k, 0, len(arg0), arg0[k] != delim) sets own(arg0)
 //@ loop 1
 //@   invariant fresh(slab) && len(slab) >= 1 && len(slab) <= 131072 && unowned(slab, 0, cap(slab))
 //@   invariant unowned(leftover, len(leftover), cap(leftover)) && fresh(leftover) && !sameArray(leftover, slab)
 //@   invariant forall(k, 0, len(leftover), leftover[k] != delim)
+//@   invariant nread == ncut + len(leftover)
 //@ loop 2
 //@   invariant 0 <= i && 0 <= n && n <= len(scope) && sameArray(scope, slab) && scope.off == slab.off && len(scope) <= len(slab)
 //@   invariant fresh(slab) && len(slab) >= 1 && len(slab) <= 131072 && unowned(slab, 0, cap(slab))
 //@   invariant unowned(leftover, len(leftover), cap(leftover)) && fresh(leftover) && !sameArray(leftover, slab)
 //@   invariant forall(k, 0, len(leftover), leftover[k] != delim)
+//@   invariant nread == ncut + len(leftover)
 //@ loop 3
 //@   invariant fresh(slab) && unowned(slab, 0, cap(slab)) && len(slab) <= 131072
 //@   invariant sameArray(buf, slab) && buf.off + len(buf) == slab.off
 //@   invariant unowned(leftover, len(leftover), cap(leftover)) && fresh(leftover) && !sameArray(leftover, slab)
 //@   invariant forall(k, 0, len(leftover), leftover[k] != delim)
+//@   invariant nread == ncut + len(leftover) + len(buf)
 
 // ---------------------------------------------------------------- chunk list
 //@ func Chunk.IsFull
